@@ -845,3 +845,55 @@ def collected_is_used(ctx: Ctx, rule: str, modules: Iterable[str], why: str) -> 
                 rep.bad(rule, f.qname, desc, f.loc(st), [f"{f.loc(st)}: `{name}` is filled ({fills} site(s)) and never read", why], f"collected-unused:{name}",
                         what=f"{f.name} collects `{name}` and drops it")
     return n
+
+
+_SHARE_CACHE_KEY = "_shared_runs"
+
+
+def share_rules(ctx: Ctx, other_prop: str, prefix: str, only: Iterable[str], why: str) -> int:
+    """Run the rules of another property on the same program (once per run, cached) and take over the obligations of the rules named in `only` under the rule
+    identifier `prefix` (`<prefix>/<original rule>`): a rule of another property that is a necessary condition of this one as well.  The other module runs against a
+    report of its own (its property-specific guards see its own property); floors of the adopted rules are adopted too.  Returns the number of adopted obligations."""
+    import copy
+    import importlib
+    rep = ctx.report
+    cache = ctx.__dict__.setdefault(_SHARE_CACHE_KEY, {})
+    sub = cache.get(other_prop)
+    if sub is None:
+        sub = Report(other_prop, rep.tier, rep.seed, rep.repo)
+        c2 = copy.copy(ctx)
+        c2.report = sub
+        mod = importlib.import_module(f"ddsverif.rules.{other_prop.lower()}")
+        try:
+            mod.run(c2)
+        except AnalysisError as e:
+            sub.error(f"{type(e).__name__}: {e}")
+        # the sub-run may have computed the type facts: keep them
+        if ctx._types is None and c2._types is not None:
+            ctx._types = c2._types
+        cache[other_prop] = sub
+    only = list(only)
+
+    def wanted(r: str) -> bool:
+        return any(r == o or r.startswith(o + "/") or r.endswith("/" + o) for o in only)
+    n = 0
+    rep.rule(prefix, why + " (shared: " + ", ".join(only) + ")")
+    for ob in sub.obligations:
+        if wanted(ob.rule):
+            ob2 = copy.copy(ob)
+            ob2.rule = f"{prefix}/{ob.rule}"
+            ob2.known = False
+            rep.add(ob2)
+            n += 1
+    for r, fl in sub.floors.items():
+        if wanted(r):
+            rep.floor(f"{prefix}/{r}", fl["instances"], fl["floor"])
+    for q, lab in sub.roles.items():
+        rep.roles.setdefault(q, lab)
+    for e in sub.errors:
+        # an anchor that vanished inside an adopted rule is this run's problem too
+        if any(o in e for o in only):
+            rep.error(f"[shared {other_prop}] {e}")
+    if n == 0:
+        rep.error(f"shared rules {only} of {other_prop} produced no obligation (under {prefix})")
+    return n
